@@ -240,14 +240,18 @@ Theorem numeric_tracer :
   Path_dz p <= h < 2 * Path_dz p /\
   lower_sum (map f (linspace (BPath_z0 p) (BPath_z1 p) (n + 1))) h <= BPath_z_integral p f
     <= upper_sum (map f (linspace (BPath_z0 p) (BPath_z1 p) (n + 1))) h) /\
-  (* numeric_direct_degenerate *)
+  (* numeric_direct_short: a direct leg shorter than dz is ONE trapezoid spanning the leg; an empty leg gives 0 *)
   (forall p (f : R -> R),
-  Path_direct p = true -> 0 < Path_dz p -> Rabs (BPath_z1 p - BPath_z0 p) < Path_dz p ->
-  BPath_z_integral p f = 0) /\
+  Path_direct p = true -> 0 < Path_dz p ->
+  (0 < Rabs (BPath_z1 p - BPath_z0 p) < Path_dz p ->
+     BPath_z_integral p f =
+       trapz_dx (map f (linspace (BPath_z0 p) (BPath_z1 p) 2)) (Rabs (linspace_step (BPath_z0 p) (BPath_z1 p) 2)) /\
+     Rabs (linspace_step (BPath_z0 p) (BPath_z1 p) 2) = Rabs (BPath_z1 p - BPath_z0 p)) /\
+  (BPath_z1 p = BPath_z0 p -> BPath_z_integral p f = 0)) /\
   (* numeric_direct_r_step: _direct_r is a trapezoid sum of some integrand on the linspace grid with its ACTUAL step *)
   (forall tr angle, exists f : R -> R, forall b,
   BTracer_direct_r tr angle b None =
-    (let n := Rtrunc (Rabs ((BTracer_z1 tr - BTracer_z0 tr) / Tracer_dz tr)) in
+    (let n := _n_intervals (BTracer_z1 tr - BTracer_z0 tr) (Tracer_dz tr) in
      trapz_dx (map f (linspace (BTracer_z0 tr) (BTracer_z1 tr) (n + 1)))
               (linspace_step (BTracer_z0 tr) (BTracer_z1 tr) (n + 1)) - b)).
 Proof.
@@ -255,7 +259,7 @@ Proof.
   split. { exact cell_error_bound. }
   split. { exact grid_step_bounds. }
   split. { exact numeric_direct_grid_lemma. }
-  split. { exact numeric_direct_degenerate_lemma. }
+  split. { exact numeric_direct_short_lemma. }
   { intros tr angle. eexists. intros b. unfold BTracer_direct_r, linspace_retstep. cbv beta iota zeta.
     rewrite ?map_map. reflexivity. }
 Qed.
